@@ -350,3 +350,71 @@ func (p *Prog) GenericReps(name string) []*ssa.Function {
 	}
 	return out
 }
+
+// funcsCalling: functions of a package (top-level, one representative per generic) that directly
+// call a callee whose resolved name satisfies pred. Anchors internal functions by what they do.
+func funcsCalling(p *Prog, pkgPath string, pred func(name string) bool) []*ssa.Function {
+	var out []*ssa.Function
+	seen := map[string]bool{}
+	for _, fn := range p.Funcs {
+		pk := fnPkg(fn)
+		if pk == nil || pk.Pkg.Path() != pkgPath || fn.Parent() != nil {
+			continue
+		}
+		gn := genericName(fn.String())
+		if seen[gn] {
+			continue
+		}
+		hit := false
+		for _, b := range fn.Blocks {
+			for _, in := range b.Instrs {
+				var cc *ssa.CallCommon
+				switch x := in.(type) {
+				case *ssa.Call:
+					cc = x.Common()
+				case *ssa.Defer:
+					cc = x.Common()
+				}
+				if cc != nil && pred(commonName(cc)) {
+					hit = true
+				}
+			}
+		}
+		if hit {
+			seen[gn] = true
+			out = append(out, fn)
+		}
+	}
+	return out
+}
+
+// staticCalleesOf: repo functions called directly by fn.
+func staticCalleesOf(p *Prog, fn *ssa.Function) []*ssa.Function {
+	var out []*ssa.Function
+	seen := map[*ssa.Function]bool{}
+	for _, b := range fn.Blocks {
+		for _, in := range b.Instrs {
+			if call, ok := in.(*ssa.Call); ok {
+				if cal := call.Common().StaticCallee(); cal != nil && p.InRepo(cal) && !seen[cal] {
+					seen[cal] = true
+					out = append(out, cal)
+				}
+			}
+		}
+	}
+	return out
+}
+
+// isSubmitterFn: fn (or its generic origin) is the generic DA submitter: the function of package
+// block that directly calls types.SubmitWithHelpers.
+func isSubmitterFn(fn *ssa.Function) bool {
+	for _, b := range fn.Blocks {
+		for _, in := range b.Instrs {
+			if call, ok := in.(*ssa.Call); ok && commonName(call.Common()) == typesF("SubmitWithHelpers") {
+				pk := fnPkg(fn)
+				return pk != nil && pk.Pkg.Path() == rootPath+"/block"
+			}
+		}
+	}
+	return false
+}
